@@ -243,31 +243,58 @@ def run(ctx, rep):
         rep.instance(R4, ok=ok, nontrivial=('writer-method', meth))
         if not ok:
             rep.finding(R4, f'C12.R4/LexWriter/{meth}', m.relfile(WR), 'LexWriter', f'method {meth} named in _methodmap does not exist')
-    raw, _ = m.getraw(ClassRefP('DefaultParser'), '_methodmap')
-    txt = astq.u(raw[1]) if raw else ''
-    for k in ('Operator:', 'Atomic:', 'Quantifier:', 'Predicate:', 'Predicate.System:'):
-        ok = k in txt
-        rep.instance(R4, ok=ok, nontrivial=('parser-map', k))
-        if not ok:
-            rep.finding(R4, f'C12.R4/DefaultParser._methodmap/{k}', m.relfile(PAR), 'DefaultParser._methodmap', f'no reader for symbols of type {k[:-1]}')
-    raw, _ = m.getraw(ClassRefP('StandardParser'), '_methodmap')
-    txt = astq.u(raw[1]) if raw else ''
-    for k in ('Marking.paren_open:', 'Constant:', 'Variable:', 'DefaultParser._methodmap'):
-        ok = k in txt
-        rep.instance(R4, ok=ok, nontrivial=('std-parser-map', k))
-        if not ok:
-            rep.finding(R4, f'C12.R4/StandardParser._methodmap/{k}', m.relfile(PAR), 'StandardParser._methodmap', f'no reader for {k}')
-    # loaders keep the tables: ParseTable.__init__ uses dict(data['mapping']) ; StringTable.__init__ dict(data['strings'])
+    # (the parsers' dispatch maps are exercised by R6: both parsers are folded over their evaluated _methodmap)
+    # loaders folded: the table an instance holds is the mapping / strings of the data it was loaded from (+ the documented defaults)
+    from ..minieval import Interp as _IL, Obj as _OL
+
+    class Enumish(tuple):
+        "an iterable class mock (hashable, usable in a key pair)"
+        def __new__(cls, name, items):
+            o = super().__new__(cls, items)
+            o.name_ = name
+            return o
+
+        def __repr__(self):
+            return self.name_
+
+        def __hash__(self):
+            return hash(self.name_)
+
+        def __eq__(self, o):
+            return self is o
+    OperatorM, QuantM, SystemM = Enumish('Operator', ('Neg', 'Conj')), Enumish('Quantifier', ('All',)), Enumish('Predicate.System', ('Ident',))
+    VarT, WS = _OL('Variable'), _OL('Marking.whitespace')
+    mapping = {'N': (OperatorM, 'Neg'), 'K': (OperatorM, 'Conj'), 'V': (QuantM, 'All'), 'I': (SystemM, 'Ident'), 'x': (VarT, 0), ' ': (WS, 0)}
+    data = {'notation': 'polish', 'mapping': tuple(mapping.items())}
+    captured = []
+    sup = _OL('super', __init__=lambda x=None: captured.append(x))
     pi = m.func(PAR, 'ParseTable.__init__')
-    ok = "mapping = dict(data['mapping'])" in astq.u(pi) and 'super().__init__(mapping)' in astq.u(pi)
+    rep.consult(m.loc(PAR, pi) + ' ParseTable.__init__')
+    itl = _IL(dict(Notation={'polish': 'NOTATION-POLISH'}, Operator=OperatorM, Quantifier=QuantM, Predicate=_OL('Predicate', System=SystemM), MapProxy=dict,
+                   super=lambda *a: sup), where='lang/parsing.py ParseTable.__init__')
+    tab = _OL('table', _keydefaults={WS: (WS, 0), 'absent-key': ('absent', 0)})
+    r = itl.safe(pi, [tab, data])
+    rev = getattr(tab, 'reversed', None) or {}
+    ok = r is None and captured == [mapping] and getattr(tab, 'notation', None) == 'NOTATION-POLISH' and getattr(tab, 'dialect', None) == 'default' and \
+        all(rev.get(v) == k for k, v in mapping.items()) and rev.get('Neg') == 'N' and rev.get('Ident') == 'I' and rev.get(WS) == ' ' and 'absent-key' not in rev
     rep.instance(R4, ok=ok, nontrivial='ParseTable.__init__')
     if not ok:
-        rep.finding(R4, 'C12.R4/ParseTable.__init__', m.loc(PAR, pi), 'ParseTable.__init__', 'the parse table is no longer the mapping given in _symdata')
+        rep.finding(R4, 'C12.R4/ParseTable.__init__', m.loc(PAR, pi), 'ParseTable.__init__',
+                    f'loaded from a 6-entry mapping the table holds {captured!r} / reversed {rev!r} ({r!r}): not the mapping given, with the reverse index of every entry and the bare-item / marking defaults')
     si = m.func(WR, 'StringTable.__init__')
-    ok = "strings = dict(data['strings'])" in astq.u(si) and 'super().__init__(strings)' in astq.u(si) and 'strings.setdefault(key, strings[defaultkey])' in astq.u(si)
+    rep.consult(m.loc(WR, si) + ' StringTable.__init__')
+    captured = []
+    sup = _OL('super', __init__=lambda x=None: captured.append(x))
+    itl = _IL(dict(Notation={'polish': 'NOTATION-POLISH'}, super=lambda *a: sup, MapProxy=dict), where='lang/writing.py StringTable.__init__')
+    strings = {'k1': 'one', 'k2': 'two', ('d', 0): 'dflt', 'given': 'explicit', ('g', 0): 'not-used'}
+    st = _OL('strings', _keydefaults={'alias': ('d', 0), 'given': ('g', 0)}, _compute_hash=lambda: 'HASH')
+    r = itl.safe(si, [st, {'format': 'text', 'notation': 'polish', 'strings': tuple(strings.items())}])
+    want = dict(strings, alias='dflt')
+    ok = r is None and captured == [want] and getattr(st, 'format', None) == 'text' and getattr(st, 'notation', None) == 'NOTATION-POLISH' and getattr(st, 'dialect', None) == 'text'
     rep.instance(R4, ok=ok, nontrivial='StringTable.__init__')
     if not ok:
-        rep.finding(R4, 'C12.R4/StringTable.__init__', m.loc(WR, si), 'StringTable.__init__', 'the string table is no longer the strings given in _symdata plus defaults')
+        rep.finding(R4, 'C12.R4/StringTable.__init__', m.loc(WR, si), 'StringTable.__init__',
+                    f'loaded from 5 strings the table holds {captured!r} ({r!r}); expected the strings given plus the defaults for absent keys only: {want!r}')
 
 
 class Tok:
